@@ -1152,6 +1152,14 @@ def check_fence_bound(ctx: Ctx) -> None:
                     isinstance(x.func, ast.Attribute) and x.func.attr in ("finditer", "findall"))) for x in ast.walk(cf.node)):
                 scan_calls.append((n, c, cf))
                 repo.func(cf.qual)  # anchor: stays a function in the inlined view
+    inline_scan = False
+    if not scan_calls:
+        # the scan written out in the renderer itself: the same obligations, with the accumulator as the bound's symbol
+        own_scans = [(n, c) for n, c in flow.all_calls() if call_name(prog, code_f, c) in ("re.finditer", "re.findall")
+                     or (isinstance(c.func, ast.Attribute) and c.func.attr in ("finditer", "findall"))]
+        if own_scans:
+            inline_scan = True
+            scan_calls = [(own_scans[0][0], None, code_f)]
     ctx.require("R-BOUND", "call to the fence-length scan in the code renderer", len(scan_calls), 1)
     if not scan_calls or not mults:
         return
@@ -1205,7 +1213,7 @@ def check_fence_bound(ctx: Ctx) -> None:
         tnames = {x.id for x in ast.walk(gen.target) if isinstance(x, ast.Name)}
         ctx.ob("R-BOUND", f"{scan_f.qual} :: measured run is the matched run", any(isinstance(x, ast.Name) and x.id in tnames for x in ast.walk(comp.elt)),
                "the measured length must be that of the run matched in this iteration", where(scan_f, an))
-    for r in sflow.cfg.returns():
+    for r in ([] if inline_scan else sflow.cfg.returns()):
         k = _lb(sflow, r.ast.value, r, name)
         ctx.ob("R-BOUND", f"{scan_f.qual} :: return > longest run", k is not None and k >= 1,
                f"the returned fence length must be at least (longest run + 1); lower bound found: "
@@ -1237,6 +1245,35 @@ def check_fence_bound(ctx: Ctx) -> None:
                    f"the scan must look for runs of the *given* fence character at line starts (MULTILINE); pattern depends on params {chars}, multiline={multiline}",
                    where(scan_f, c))
     # (2) caller: emitted length >= scan result; same fence character scanned and emitted
+    if inline_scan:
+        for mn, mult in mults:
+            char_e, len_e = (mult.left, mult.right)
+            if _lb(flow, len_e, mn, name) is None and _lb(flow, char_e, mn, name) is not None:
+                char_e, len_e = len_e, char_e
+            k = _lb(flow, len_e, mn, name)
+            ctx.ob("R-BOUND", f"{code_f.qual} :: emitted fence length >= required length", k is not None and k >= 1,
+                   f"the fence that is written must be longer than the longest fence-like run of the content; bound: "
+                   f"{'longest run %+d' % k if k is not None else 'none'} for `{norm(len_e)}`", where(code_f, mult))
+            # the scanned pattern is built from the very character that is emitted
+            char_names = {x.id for x in ast.walk(char_e) if isinstance(x, ast.Name)}
+            same_char = False
+            for n2, c2 in flow.all_calls():
+                is_scan = call_name(prog, code_f, c2) in ("re.finditer", "re.findall") or (isinstance(c2.func, ast.Attribute) and c2.func.attr in ("finditer", "findall"))
+                if is_scan:
+                    pat_e = c2.args[0] if call_name(prog, code_f, c2) in ("re.finditer", "re.findall") and c2.args else c2.func.value
+                    sl_p = prog.slice(code_f, pat_e, n2)
+                    if {d.var for d in sl_p.defs} & char_names or any(isinstance(x, ast.Name) and x.id in char_names for x in ast.walk(pat_e)):
+                        same_char = True
+            ctx.ob("R-BOUND", f"{code_f.qual} :: scanned character == emitted character", same_char,
+                   "the content must be scanned for the same fence character that is emitted", where(code_f, mult))
+        fence_vars = {d.var for d in flow.defs if d.kind == "assign" and any(d.value is mult for _, mult in mults)}
+        uses = sum(1 for n in flow.cfg.nodes for ex in flow.node_exprs(n) for sub in walk_no_nested(ex)
+                   if (isinstance(sub, ast.JoinedStr) and any(isinstance(p, ast.FormattedValue) and isinstance(p.value, ast.Name) and p.value.id in fence_vars for p in sub.values))
+                   or (isinstance(sub, ast.BinOp) and isinstance(sub.op, ast.Add) and any(isinstance(p, ast.Name) and p.id in fence_vars for p in (sub.left, sub.right))))
+        if fence_vars:
+            ctx.ob("R-BOUND", f"{code_f.qual} :: opening and closing fence", uses >= 2,
+                   f"both fence lines must be built from the computed fence (found {uses} uses)", where(code_f, code_f.node))
+        return
     b = bind_call(scan_f, sc)
     for mn, mult in mults:
         char_e, len_e = (mult.left, mult.right)
